@@ -11,6 +11,11 @@ for NAME in "$@"; do
   git -C $WT apply $D/patch.diff || { echo "$NAME: patch does not apply"; continue; }
   if cmake --build $WT/_b -j 8 > $D/tests_build.log 2>&1; then
     (cd $WT/_b && ctest -j8 --timeout 900 > $D/tests_ctest.log 2>&1)
+    # the *.Performance tests compare wall-clock times and fail spuriously on a loaded machine: failed tests are re-run once, alone
+    if ! grep -q '100% tests passed' $D/tests_ctest.log; then
+      (cd $WT/_b && ctest --rerun-failed --timeout 900 > $D/tests_ctest_rerun.log 2>&1)
+      echo "$NAME: first run: $(grep 'tests passed' $D/tests_ctest.log); failed tests re-run alone: $(grep 'tests passed' $D/tests_ctest_rerun.log)"
+    fi
     echo "$NAME: build ok; $(grep 'tests passed' $D/tests_ctest.log)"
   else
     echo "$NAME: BUILD FAILED"
